@@ -70,7 +70,12 @@ def matrix_to_triangle(mat: Matrix) -> Triangle:
         for i in range(mat.data.shape[2])
     ]
     dev_lags = [
-        float(mat.index._dev_origin + i * mat.index._dev_resolution)
+        # development indices are laid out on the finer of the two resolutions
+        # (see MatrixIndex._resolve_dev_ndx)
+        float(
+            mat.index._dev_origin
+            + i * min(mat.index._dev_resolution, mat.index._exp_resolution)
+        )
         for i in range(mat.data.shape[3])
     ]
 
